@@ -391,7 +391,8 @@ impl Env {
         let recursive = false;
         let _ = recursive;
         // save the variables the parameters shadow
-        let saved: Vec<(String, Option<TV>)> = params.iter().map(|p| (p.clone(), self.vars.get(p).cloned())).collect();
+        // `_` is a placeholder, not a variable
+        let saved: Vec<(String, Option<TV>)> = params.iter().filter(|p| p.as_str() != "_").map(|p| (p.clone(), self.vars.get(p).cloned())).collect();
         if saved.iter().any(|(_, v)| v.is_some()) {
             self.stats.closure_shadowed_outer += 1;
         }
@@ -414,7 +415,9 @@ impl Env {
     fn run_body(&mut self, params: &[String], bind: Vec<TV>, body: &[E]) -> R {
         self.stats.closure_iterations += 1;
         for (p, v) in params.iter().zip(bind) {
-            self.vars.insert(p.clone(), v);
+            if p != "_" {
+                self.vars.insert(p.clone(), v);
+            }
         }
         match self.block(body) {
             Ok(v) => Ok(v),
